@@ -83,6 +83,9 @@ TRUSTED = [
 ASSUMPTIONS = [
     "a call executes every load of the function body in source order (all code paths at once); imports inside "
     "conditional blocks are not assumed afterwards",
+    "module level: names bound on some path only of an if/loop/match whose outcome is not decided statically are assumed "
+    "bound (none in the current tree; listed per module in the facts, counted in the evidence); the fresh interpreter "
+    "shows whether they exist and the bytecode oracle finds every function that loads one that does not",
     "names are created at module level by the statements the translator sees: globals()[...] = ... (flow/zip.py, counted "
     "in the evidence as dynamic), exec/eval and the Python-2 branches are outside the model",
     "objects that are not lena modules are opaque: attributes of classes and instances are not checked",
